@@ -229,6 +229,9 @@ func runC17(c *Ctx, idx int, o *Obs) {
 		}
 		for _, i := range order {
 			t2 := mustParse(text)
+			if r.Intn(3) == 0 {
+				t2 = usedObject(r, text)
+			}
 			nd := innerNodes(t2)[i]
 			if nd.Nneigh() < 3 {
 				continue
